@@ -561,10 +561,11 @@ func gepInstType(elemType, src types.Type, indices []value.Value) types.Type {
 			idx = getIndex(index)
 		default:
 			idx = gep.Index{HasVal: false}
-			// Check if index is of vector type.
-			if indexType, ok := index.Type().(*types.VectorType); ok {
-				idx.VectorLen = indexType.Len
-			}
+		}
+		// Check if index is of vector type.
+		if indexType, ok := index.Type().(*types.VectorType); ok {
+			idx.VectorLen = indexType.Len
+			idx.Scalable = indexType.Scalable
 		}
 		idxs = append(idxs, idx)
 	}
@@ -628,9 +629,12 @@ func getIndex(index constant.Constant) gep.Index {
 					}
 				}
 			default:
-				// TODO: remove debug output.
-				panic(fmt.Errorf("support for gep index vector element type %T not yet implemented", elem))
-				//return gep.Index{HasVal: false}
+				// An element that is not an integer literal (undef, poison, constant
+				// expression): the index vector has no concrete value.
+				return gep.Index{
+					HasVal:    false,
+					VectorLen: uint64(len(index.Elems)),
+				}
 			}
 		}
 		return gep.Index{
